@@ -60,9 +60,6 @@ SMALL = {"Multi_field_element_with_small_characteristics", "Shared_multi_field_e
 SIGNED32 = {"Zp_field_element", "Shared_Zp_field_element", "Multi_field_element_with_small_characteristics",
             "Shared_multi_field_element_with_small_characteristics"}
 GMPELEM = {"Multi_field_element", "Shared_multi_field_element"}
-RUNTIME = {"Zp_field_operators", "Shared_Zp_field_element", "Multi_field_operators",
-           "Multi_field_operators_with_small_characteristics", "Shared_multi_field_element",
-           "Shared_multi_field_element_with_small_characteristics", "persistent_cohomology::Field_Zp"}
 INT_OPS = {"val", "add_int", "sub_int", "rsub_int", "mul_int", "eq_int"}
 
 
@@ -97,10 +94,6 @@ def m_gmp_negative(d):
     return d["family"] in GMPELEM and a["op"] in ("rsub_int", "eq_int") and a.get("ty") == "mpz_class" and num(a["n"]) < 0
 
 
-def m_refused_keeps(d):
-    return d["family"] in RUNTIME and _a(d)["op"] == "setchar_keep"
-
-
 def m_z2_amib(d):
     return d["family"].startswith("Z2_field_operators") and _a(d)["via"] == "add_and_multiply_inplace_back"
 
@@ -123,7 +116,6 @@ MATCHERS = {
     "C10-small-multifield-partial-inverse-gcd": m_small_pinv,
     "C10-small-multifield-inverse-int-overflow": m_small_inv_2_31,
     "C10-gmp-multifield-negative-integer-operand": m_gmp_negative,
-    "C10-refused-characteristic-corrupts-field": m_refused_keeps,
     "C10-z2-operators-add-and-multiply-inplace-back": m_z2_amib,
     "C10-cohomology-multifield-times-minus-zero": m_coh_times_minus,
     "C10-add-and-multiply-32bit-overflow": m_addmul_overflow,
@@ -374,6 +366,8 @@ def main(tier):
                       "documented operand domains: signed Integer_type able to contain the characteristic; fused "
                       "operations on reduced operands; Multi_field_operators_with_small_characteristics for P < 2^16",
                       "trace specification handles primes < 2^16 (MulP operand splitting)",
+                      "a refused set_characteristic / initialize / init is only required to be refused (std::invalid_argument): "
+                      "the object is not used or judged again before an accepted one (NoField in Fields.tla)",
                       "harness trusted only for decimal printing of values (GMP mpz_get_str / JSON)"]
     fnd.report(PROP)
     if unknown:
